@@ -257,12 +257,25 @@ fn case(cx: &mut CaseCtx, input: Input, layouts: usize, cfg: &GenCfg) -> CaseRes
     for l in 0..layouts {
         // layout 0 with all-zero bytes is canonical; make layout numbering start at 1 so that the
         // first layout is already a free one unless the input shrank to zeros
-        let (texts, rendered) = render_layout(&p, lay_bytes, l);
+        let (mut texts, mut rendered) = render_layout(&p, lay_bytes, l);
+        if l % 2 == 1 && !lay_bytes.is_empty() {
+            // every other layout: preprocessor lines in front of definitions (rows after removed
+            // blocks, the first line of a later source block indented unlike its directive)
+            let mut n = 0;
+            for (k, r) in rendered.iter_mut().enumerate() {
+                let rot = k % lay_bytes.len();
+                let choices: Vec<u8> = lay_bytes[rot..].iter().chain(lay_bytes[..rot].iter()).copied().collect();
+                n += crate::render::insert_preprocessor_blocks(r, &choices);
+            }
+            if n > 0 {
+                texts = rendered.iter().map(|r| r.text.clone()).collect();
+            }
+        }
         let mut interesting = false;
         for r in &rendered {
             for lab in &r.labels {
                 cx.label(*lab);
-                if matches!(*lab, "tab" | "crlf" | "non-ascii-before" | "unicode-space") {
+                if matches!(*lab, "tab" | "crlf" | "non-ascii-before" | "unicode-space" | "preprocessor-block-before-definition") {
                     interesting = true;
                 }
             }
@@ -718,7 +731,7 @@ impl Check for C09 {
         "C09"
     }
     fn rule(&self) -> String {
-        "proptest choice sequences -> well-formed program x token-level layouts (tabs, CRLF, multi-byte characters in comments and string arguments, blank lines, comments between any two tokens); the printer records the character position of every token and the token range of every element, which are the expected spans; oracle: every span of every element / identifier / tag / value / attribute / type expression / doc-comment part reachable through the public API is inside its file, start <= end, tight as the statement says. Non-trivial = the layout has a tab, CRLF or non-ASCII character; distinct by hash of the abstract program. Family `diagnostics`: programs with 1..3 injected rule violations (C04's catalogue) in free layouts; every diagnostic/note span is inside its file and ordered, and every error's span lies inside the text (prelude included) of an element the reference rule checker names as violating a rule with that code (non-trivial = at least one such error judged). Family `comment-defects`: C16's defective doc comments planted on one victim in free layouts; every MalformedDocComment / IncorrectDocComment lint must lie inside the lines of the victim's comment and every BrokenDocLink inside some doc comment (non-trivial = at least one such lint judged). Family `snippets`: every element span, spans joined from two elements and zero-width positions attached to synthetic diagnostics and notes, written by the real emitter in human format and re-parsed against a reference that computes line numbers, tab-expanded source lines and the underline cell by cell (non-trivial = a multi-line span with a tab or non-ASCII character on an inner line, or a single-line span preceded by one)".into()
+        "proptest choice sequences -> well-formed program x token-level layouts (tabs, CRLF, multi-byte characters in comments and string arguments, blank lines, comments between any two tokens; in every other layout preprocessor lines - removed `#if` blocks, `#define`, selected `#if` / `#else` regions, indented independently - in front of definitions); the printer records the character position of every token and the token range of every element, which are the expected spans; oracle: every span of every element / identifier / tag / value / attribute / type expression / doc-comment part reachable through the public API is inside its file, start <= end, tight as the statement says. Non-trivial = the layout has a tab, CRLF or non-ASCII character; distinct by hash of the abstract program. Family `diagnostics`: programs with 1..3 injected rule violations (C04's catalogue) in free layouts; every diagnostic/note span is inside its file and ordered, and every error's span lies inside the text (prelude included) of an element the reference rule checker names as violating a rule with that code (non-trivial = at least one such error judged). Family `comment-defects`: C16's defective doc comments planted on one victim in free layouts; every MalformedDocComment / IncorrectDocComment lint must lie inside the lines of the victim's comment and every BrokenDocLink inside some doc comment (non-trivial = at least one such lint judged). Family `snippets`: every element span, spans joined from two elements and zero-width positions attached to synthetic diagnostics and notes, written by the real emitter in human format and re-parsed against a reference that computes line numbers, tab-expanded source lines and the underline cell by cell (non-trivial = a multi-line span with a tab or non-ASCII character on an inner line, or a single-line span preceded by one)".into()
     }
     fn assumptions(&self) -> Vec<String> {
         vec![
@@ -729,7 +742,7 @@ impl Check for C09 {
         ]
     }
     fn essential(&self, _tier: Tier) -> Vec<&'static str> {
-        vec!["spans-checked", "tab", "crlf", "non-ascii-before", "prelude-mixed", "op-no-return", "op-single-return", "op-tuple-return", "unchecked", "compact", "idempotent", "tagged", "enumerator-explicit", "type-attribute", "diagnostic-spans-checked", "comment-lint-spans-checked", "snippets-checked", "multi-line-span/non-ascii-on-inner-line", "multi-line-span/tab-on-inner-line", "single-line-span/non-ascii-before", "single-line-span/tab-before", "zero-width-span"]
+        vec!["spans-checked", "tab", "crlf", "non-ascii-before", "prelude-mixed", "op-no-return", "op-single-return", "op-tuple-return", "unchecked", "compact", "idempotent", "tagged", "enumerator-explicit", "type-attribute", "preprocessor-block-before-definition", "diagnostic-spans-checked", "comment-lint-spans-checked", "snippets-checked", "multi-line-span/non-ascii-on-inner-line", "multi-line-span/tab-on-inner-line", "single-line-span/non-ascii-before", "single-line-span/tab-before", "zero-width-span"]
     }
     fn fuzz_families(&self, _tier: Tier) -> Vec<(&'static str, u64)> {
         // libFuzzer runs per job (16 jobs), sized from the measured speed of the instrumented build
